@@ -605,7 +605,18 @@ pub fn run(ctx: &Ctx) -> i32 {
         }
         let accs = par_fold(layouts.len() as u64, |i, a: &mut A| {
             let l = layouts[i as usize];
-            let text = print_doc(&abs, &l);
+            // a file that starts the HULC way (loose attributes + general data) may hold, further down, a description
+            // block named "Defecto" like the one old LIDER files start with: it is one more block
+            let with_descr: Vec<ABlock>;
+            let abs: &Vec<ABlock> = if l.preamble && variant == 0 {
+                let mut d = abs.clone();
+                d.insert(d.len() / 2, blk("Defecto", "DESCRIPTION", vec![("PROJECTNAME", s("Adosado 166")), ("LOCALITY", s("Palencia"))]));
+                with_descr = d;
+                &with_descr
+            } else {
+                &abs
+            };
+            let text = print_doc(abs, &l);
             let case = || json!({"part": "project-doc", "variant(0 all,1 mandatory,2 legacy)": variant, "layout": format!("{:?}", l), "text": text});
             a.n += 1;
             match catch(std::panic::AssertUnwindSafe(|| build_blocks(&text))) {
@@ -615,7 +626,7 @@ pub fn run(ctx: &Ctx) -> i32 {
                     if l.preamble && (got.len() < 2 || format!("{:?}", got[0].btype) != "ParteLider" || got[1].name != "DATOS GENERALES") {
                         ctx.violation("build_blocks:preamble", "LIDER preamble not wrapped / general data block lost", case());
                     }
-                    if check_blocks(ctx, &abs, &got, skip, &case) {
+                    if check_blocks(ctx, abs, &got, skip, &case) {
                         a.out.insert(hash64(&got.len()));
                     }
                 }
@@ -843,7 +854,7 @@ pub fn run(ctx: &Ctx) -> i32 {
     ctx.outcome_merge(&outcomes);
     ctx.finish(
         "model_checking",
-        &format!("project documents (every supported block type; quoted strings with accents and with the signs $ ( ) , =; 3 abstract variants: all attributes / mandatory only / legacy LIDER) printed in the full product of layout switches {{LF,CRLF}} x attribute order{{file,reversed,rotated}} x number format{{shortest, %.6f, right-aligned, exponent with explicit sign, explicit plus sign}} x words{{bare,quoted}} x lists{{one line, broken after commas, closing paren alone, broken before commas}} x comments/blank lines{{none, between, inside}} x indentation{{none, tab, 12 spaces + trailing blanks}} x preamble{{none, LIDER}} = 2880 layouts: build_blocks recovers name, type, parent and every attribute value (numbers exactly, lists through extract_*vec), Data::new's typed elements carry the written values / documented defaults; parent tracking on all sequences of length 2..{} over 11 block kinds (each also with one shared name for all its blocks and a distinguishing attribute value per occurrence) and all prefixes of all cyclic rotations of the document; {} real files re-printed by an independent lexer in {} uniform layouts must parse to Debug-identical Data, and every attribute of a real file whose written value is a numeric literal must be recovered as that number; KyG (old/new columns x ./, x 0..2 windows; construction names with commas next to decimal commas) and tbl (0..3 elements x 0..3 spaces x quoting) printers", depth, files.len(), nlay),
+        &format!("project documents (every supported block type; quoted strings with accents and with the signs $ ( ) , =; 3 abstract variants: all attributes / mandatory only / legacy LIDER; with the HULC preamble the full variant also holds a DESCRIPTION block named \"Defecto\" half way down) printed in the full product of layout switches {{LF,CRLF}} x attribute order{{file,reversed,rotated}} x number format{{shortest, %.6f, right-aligned, exponent with explicit sign, explicit plus sign}} x words{{bare,quoted}} x lists{{one line, broken after commas, closing paren alone, broken before commas}} x comments/blank lines{{none, between, inside}} x indentation{{none, tab, 12 spaces + trailing blanks}} x preamble{{none, LIDER}} = 2880 layouts: build_blocks recovers name, type, parent and every attribute value (numbers exactly, lists through extract_*vec), Data::new's typed elements carry the written values / documented defaults; parent tracking on all sequences of length 2..{} over 11 block kinds (each also with one shared name for all its blocks and a distinguishing attribute value per occurrence) and all prefixes of all cyclic rotations of the document; {} real files re-printed by an independent lexer in {} uniform layouts must parse to Debug-identical Data, and every attribute of a real file whose written value is a numeric literal must be recovered as that number; KyG (old/new columns x ./, x 0..2 windows; construction names with commas next to decimal commas) and tbl (0..3 elements x 0..3 spaces x quoting) printers", depth, files.len(), nlay),
         true,
         json!({}),
     )
